@@ -296,6 +296,22 @@ func main() {
 		}
 	}
 
+	// every payload length 0..700 on the Go side (both prefixes); on the model: 0..24 and the lengths
+	// around powers of two and around the places where text length crosses 128/256/512 characters
+	for l := 0; l <= 700; l++ {
+		d := r.Bytes(l)
+		for _, p := range prefixes {
+			checkValue(p, 1+(l*7)%255, 1+(l*11)%255, d)
+		}
+	}
+	modelLens := []int{31, 32, 33, 47, 48, 49, 55, 56, 57, 63, 64, 65, 110, 117, 118, 119, 120, 121, 127, 128, 129, 180, 235, 236, 237, 238, 239, 255, 256, 257, 400, 511, 512, 513}
+	for l := 0; l <= 24; l++ {
+		modelLens = append(modelLens, l)
+	}
+	for i, l := range modelLens {
+		fullCase("payload-len", prefixes[i%2], 1+r.Intn(255), 1+r.Intn(255), r.Bytes(l))
+	}
+
 	// 3. out-of-range fields => "ERROR" (incl. negative)
 	for _, bad := range []int{0, 256, -1, 257, -255, -256, 1 << 31, -(1 << 40), 1000} {
 		for _, good := range []int{1, 255} {
@@ -424,6 +440,6 @@ func main() {
 		valCase("adversarial", t)
 	}
 
-	c.Stats.Rule = "Go side: all 65 025 (version, network) pairs (quick: prefix script/template and payload length {0,1,11,300} rotate with the pair; thorough: every pair x 2 prefixes x 4 lengths) with round-trip, layout and validate predicates; every single-byte substitution (all 255 other values), deletion and insertion at every position of ten valid encodings, every truncation of one. Model side (cases counted here): 16x16 boundary field values + 1300 seeded random pairs (thorough: all pairs x 2 prefixes), payload lengths {0,1,11,300} x 2 prefixes, out-of-range fields {0,256,-1,257,-255,-256,2^31,-2^40,1000}, 18 unusual prefixes (colons, non-UTF-8, newline, empty), two substitutions + indels per position of the ten encodings, truncations, 40 hand-made adversarial texts (several colons, letter case, zero fields, odd data length). distinct = distinct (prefix,version,network,data) for encoder cases / distinct text for decoder and validate cases; non-trivial = encoder output is not ERROR / text has a colon and at least 14 characters"
+	c.Stats.Rule = "Go side: all 65 025 (version, network) pairs (quick: prefix script/template and payload length {0,1,11,300} rotate with the pair; thorough: every pair x 2 prefixes x 4 lengths) with round-trip, layout and validate predicates; every payload length 0..700 x 2 prefixes; every single-byte substitution (all 255 other values), deletion and insertion at every position of ten valid encodings, every truncation of one. Model side (cases counted here): 16x16 boundary field values + 1300 seeded random pairs (thorough: all pairs x 2 prefixes), payload lengths {0,1,11,300} x 2 prefixes and 59 further lengths (0..24, around 32/48/56/64/118/128/237/256/512), out-of-range fields {0,256,-1,257,-255,-256,2^31,-2^40,1000}, 18 unusual prefixes (colons, non-UTF-8, newline, empty), two substitutions + indels per position of the ten encodings, truncations, 40 hand-made adversarial texts (several colons, letter case, zero fields, odd data length). distinct = distinct (prefix,version,network,data) for encoder cases / distinct text for decoder and validate cases; non-trivial = encoder output is not ERROR / text has a colon and at least 14 characters"
 	c.Finish()
 }
